@@ -256,7 +256,7 @@ fn step(gen: &mut Gen, shared: &Arc<Shared>, pool: Option<&rayon::ThreadPool>) -
 }
 
 const RULE: &str = "C09 `generation` family: Generation::new(GenomeScorer(probe genome maker, probe scorer), Vec<EcIndividual>) stepped with the real serial_next and, \
-inside rayon pools of 1, 2, 3, 4, 8 and 16 threads, the real par_next; population sizes 0, 1, 2, .. 64 (thorough 2000); the probe draws d words from the generator it is handed, \
+inside rayon pools of 1, 2, 3, 4, 8 and 16 threads, the real par_next; population sizes 0, 1, 2, .. 64 (thorough 400); the probe draws d words from the generator it is handed, \
 records call number, rayon worker, words, address/length/checksum of the population it was shown, and fails at scripted call numbers (every failure position for populations up to 16, seeded otherwise); \
 several consecutive steps per Generation value. Compared with the Lean model run on the recorded answers (serial: one tape; parallel: the observed call order and worker of each call as the abstract schedule, \
 per-worker tapes): Ok/Err, error payload, the population afterwards position by position, all recorded answers consumed. Property oracles (violations): Ok => same size, every child made from the old population \
@@ -279,7 +279,7 @@ fn gen_case(g: &mut SplitMix, thorough: bool, i: u64, n_exh: u64, exh: &[(usize,
         let (n, k, pool) = exh[i as usize];
         return CaseCfg { n, d: 1 + (i % 2) as usize, fails: vec![vec![k], vec![]], pool, spin_us: if pool.is_some() && i % 3 != 0 { 30 } else { 0 } };
     }
-    let big = if thorough { 2000 } else { 64 };
+    let big = if thorough { 400 } else { 64 };
     let n = (match g.below(10) { 0 => 0, 1 => 1, 2 => 2, 3 => big, 4 => g.below(big + 1), _ => g.below(20) }) as usize;
     let d = g.below(4) as usize;
     let steps = 1 + g.below(3) as usize;
@@ -430,7 +430,7 @@ pub fn run(cfg: &Cfg) -> Report {
     let reps = if thorough { 20 } else { 2 };
     for _ in 0..reps { for n in 0..=16usize { for k in 0..=n { for pool in std::iter::once(None).chain((0..6).map(Some)) { exh.push((n, k, pool)); } } } }
     let n_exh = exh.len() as u64;
-    let n_rand: u64 = if thorough { 150_000 } else { 6_000 };
+    let n_rand: u64 = if thorough { 40_000 } else { 6_000 };
     let mut rep = run_sharded(&cfg.driver, cfg.threads, n_exh + n_rand, || Report::new("generation", RULE), |d, r, i| {
         let mut g = SplitMix::derive(seed ^ 0xC09, i);
         let c = gen_case(&mut g, thorough, i, n_exh, &exh);
